@@ -63,6 +63,10 @@ type ctxT struct {
 	notes   []string
 }
 
+// serial numbers the generated names; it keeps counting across rounds so that
+// a body inlined in one round can be inlined again, labels and all, in the next.
+var serial int
+
 func declKey(root, filename string, fd *ast.FuncDecl) string {
 	rel, _ := filepath.Rel(root, filepath.Dir(filename))
 	recv := ""
@@ -100,7 +104,9 @@ func simple(fd *ast.FuncDecl, obj *types.Func, info *types.Info) string {
 		case *ast.DeferStmt:
 			why = "defer"
 		case *ast.LabeledStmt:
-			why = "label"
+			if !strings.HasPrefix(x.Label.Name, "_inl") {
+				why = "label"
+			}
 		case *ast.BranchStmt:
 			if x.Tok == token.GOTO {
 				why = "goto"
@@ -135,7 +141,8 @@ func simple(fd *ast.FuncDecl, obj *types.Func, info *types.Info) string {
 // The third result lists the candidates (by reference key) that no longer have
 // any reference in the loaded packages.
 func Normalize(pkgs []*packages.Package, root, modPath string, cur map[string][]byte) (map[string][]byte, []string, []string) {
-	c := &ctxT{srcs: map[string][]byte{}}
+	c := &ctxT{srcs: map[string][]byte{}, counter: serial}
+	defer func() { serial = c.counter }()
 	c.setSources(cur)
 	var mods []*packages.Package
 	packages.Visit(pkgs, nil, func(p *packages.Package) {
@@ -678,6 +685,35 @@ func (c *ctxT) inlineCall(p *packages.Package, f *ast.File, filename string, src
 	if stmt == nil || stmtIdx == 0 || done[stmt] {
 		return nil, false
 	}
+	// the init statement of an if: "if x, err := h(..); cond {" becomes
+	// "{ <inlined h>; if x, err := r0, r1; cond {" ... "}"
+	if as, ok := stmt.(*ast.AssignStmt); ok && stmtIdx >= 2 {
+		if ifs, ok := stack[stmtIdx-1].(*ast.IfStmt); ok && ifs.Init == stmt && !done[ifs] {
+			if outer, ok := stack[stmtIdx-2].(*ast.IfStmt); ok && outer.Else == ast.Stmt(ifs) {
+				done[ifs] = true
+				return []edit{{c.off(ifs.Pos()), c.off(ifs.Pos()), "{ "}, {c.off(ifs.End()), c.off(ifs.End()), " }"}}, true
+			}
+			switch stack[stmtIdx-2].(type) {
+			case *ast.BlockStmt, *ast.CaseClause, *ast.CommClause:
+				if len(as.Rhs) == 1 && as.Rhs[0] == ast.Expr(call) && len(as.Lhs) == nres {
+					text, results, ok := c.body(cal, filename, recvText, argTexts, call.Ellipsis.IsValid(), c.fset.Position(ifs.Pos()).Line)
+					if !ok {
+						return nil, false
+					}
+					var lhs []string
+					for _, l := range as.Lhs {
+						lhs = append(lhs, c.text(src, l))
+					}
+					done[ifs] = true
+					return []edit{
+						{c.off(ifs.Pos()), c.off(as.End()), "{ " + text + "if " + strings.Join(lhs, ", ") + " " + as.Tok.String() + " " + strings.Join(results, ", ")},
+						{c.off(ifs.End()), c.off(ifs.End()), " }"},
+					}, true
+				}
+			}
+			return nil, false
+		}
+	}
 	if ifs, ok := stmt.(*ast.IfStmt); ok && within(call, ifs.Cond) {
 		// an else-if is first put into a block of its own
 		if outer, ok := stack[stmtIdx-1].(*ast.IfStmt); ok && outer.Else == stmt {
@@ -891,6 +927,10 @@ func (c *ctxT) asLiteral(p *packages.Package, f *ast.File, src []byte, ref ast.E
 	fmt.Fprintf(&sb, "\n//line %s:%d\n", calleePos.Filename, calleePos.Line)
 	sb.Write(csrc[c.off(cal.decl.Body.Lbrace)+1 : c.off(cal.decl.Body.Rbrace)])
 	refPos := c.fset.Position(ref.End())
-	fmt.Fprintf(&sb, "}\n//line %s:%d\n", refPos.Filename, refPos.Line)
+	col := refPos.Column
+	if col < 1 {
+		col = 1
+	}
+	fmt.Fprintf(&sb, "}/*line %s:%d:%d*/", refPos.Filename, refPos.Line, col)
 	return sb.String(), true
 }
